@@ -521,6 +521,13 @@ func c08() {
 		style := []int{0, 0, 1, 2}[i%4]
 		kc := buildKernelCase(r, o, ts, goarch, style, i%2 == 0, run.Thorough() && i%25 == 7)
 		kc.strace = i%2 == 0
+		if i%7 == 3 && !kc.cc.KillThreadProbe {
+			// another thread loads the very same filter first; the judged load must still attach its own
+			kc.cc.Flags &^= 1
+			kc.cc.PreloadOnOtherThread = true
+			kc.strace = false
+			run.Count("children_with_identical_preload_on_other_thread", 1)
+		}
 		kc.desc = fmt.Sprintf("case %d %s", i, kc.desc)
 		judgeEnforce(run, o, kc, st, "")
 		if i == 1 || i == 2 {
